@@ -61,8 +61,9 @@ FAMILIES = [
     dict(name="Triangular", sample=_s("triangular::Triangular<F>"), ctor="triangular::Triangular::<F>::new"),
     dict(name="Pert", sample=_s("pert::Pert<F>"), ctor="pert::PertBuilder::<F>::with_mode"),
     dict(name="Poisson", sample=_s("poisson::Poisson<F>"), ctor="poisson::Poisson::<F>::new", rng="ge0"),
-    dict(name="Zeta", sample=_s("zeta::Zeta<F>"), ctor="zeta::Zeta::<F>::new", rng="ge1",
-         inf_ok=lambda c: True, doc="Zeta may return +inf when the proposal overflows (documented)"),
+    # the documented +inf of Zeta needs the proposal to OVERFLOW (s very close to 1); the envelope has no overflow, so here an infinite
+    # result can only come from a singular draw and is judged like everywhere else
+    dict(name="Zeta", sample=_s("zeta::Zeta<F>"), ctor="zeta::Zeta::<F>::new", rng="ge1"),
     dict(name="Zipf", sample=_s("zipf::Zipf<F>"), ctor="zipf::Zipf::<F>::new", rng="ge1"),
     dict(name="Binomial", sample=_s("binomial::Binomial", "u64"), ctor="binomial::Binomial::new", bits=(64,)),
     dict(name="Geometric", sample=_s("geometric::Geometric", "u64"), ctor="geometric::Geometric::new", bits=(64,)),
@@ -87,8 +88,9 @@ def find_sample_inst(F, path, bits):
     return None
 
 
-def envelope_cases(F, ax, fam, bits, tier):
-    """[(case name, case cells dict, self value)] : constructor Ok outcomes with finite arguments."""
+def envelope_cases(F, ax, fam, bits, tier, extremes=False):
+    """[(case name, case cells dict, self value)] : constructor Ok outcomes with finite arguments.
+    With `extremes` the type's largest finite value and smallest subnormal are added as cells and IEEE rounding is on."""
     if fam["ctor"] is None:
         return [("unit", {}, St(None, ()))]
     entry = next(e for e in spec_c04.SPEC if e["path"] == fam["ctor"])
@@ -108,7 +110,7 @@ def envelope_cases(F, ax, fam, bits, tier):
                 cs |= set(rules_c04.LADDER)
             else:
                 cs |= set(sorted(consts, key=abs)[:{1: 6, 2: 3}.get(len(entry["args"]), 1)])
-            cells = [c for c in rules_c04.float_cells(bits, cs) if not (c.nan or c.pinf or c.ninf)]
+            cells = [c for c in rules_c04.float_cells(bits, cs, extremes=extremes) if not (c.nan or c.pinf or c.ninf)]
             cellsets.append(cells)
         else:
             cellsets.append(rules_c04.int_cells(int(kind[1:]), kind[0] == "i", name in ordered))
@@ -116,7 +118,7 @@ def envelope_cases(F, ax, fam, bits, tier):
     out = []
     for combo in itertools.product(*cellsets):
         vals = {n: c.value for n, c in zip(names, combo)}
-        outs, ev, imp, okp = rules_c04.run_case(F, ax, entry, insts, vals)
+        outs, ev, imp, okp = rules_c04.run_case(F, ax, entry, insts, vals, ieee=bits if extremes else None)
         if outs == {"Ok"} and okp is not None:
             out.append((", ".join("%s=%s" % (n, c.name) for n, c in zip(names, combo)), dict(zip(names, combo)), okp))
     return out
